@@ -69,6 +69,10 @@ EXPLANATION += (
     ' Round 8: node identity is checked over all taxonomy modules.'
 )
 
+EXPLANATION += (
+    ' Round 9: the HDF5 codec field map of C15 is shared: per-level fields are stored as found, not recomputed over the output hierarchy.'
+)
+
 RULE_TEXT = (
     "one obligation per consumer of the tree, per reducer call, per "
     "drop_level(<config>) call site, per flatten rebinding")
